@@ -37,9 +37,9 @@ func genC07(rt *rapid.T) interface{} {
 	for i := 0; i < n; i++ {
 		switch rapid.IntRange(0, 3).Draw(rt, "lk") {
 		case 0:
-			sc.Msgs = append(sc.Msgs, rapid.SampledFrom([]int{1, 2, 16, 1023, 1024, 1025, 2048, 3072, 4096}).Draw(rt, "len"))
+			sc.Msgs = append(sc.Msgs, rapid.SampledFrom([]int{0, 0, 1, 2, 16, 1023, 1024, 1025, 2048, 3072, 4096}).Draw(rt, "len")) // 0: one frame without content
 		case 1:
-			sc.Msgs = append(sc.Msgs, rapid.IntRange(1, 80).Draw(rt, "len"))
+			sc.Msgs = append(sc.Msgs, rapid.IntRange(0, 80).Draw(rt, "len"))
 		default:
 			sc.Msgs = append(sc.Msgs, rapid.IntRange(1, 5000).Draw(rt, "len"))
 		}
